@@ -78,11 +78,11 @@ Pins ==
   /\ YesF(<<>>)
 
 \* evaluated once, at the state whose tree is the single identifier
-PinsChecked == (Mode = "expr" /\ t = Id0) => Pins
+PinsChecked == (Mode = "expr" /\ Tree = Id0) => Pins
 
 Design ==
-  HasHole(t) \/
-  LET L == Lab(t, 1)[1]
+  FHasHole(t) \/
+  LET L == Lab(Tree, 1)[1]
       toks == IF Mode = "expr" THEN RenderExpr(L) ELSE RenderFile(L)
   IN /\ WF(L)
      /\ Len(Minimal(toks)) > 0
